@@ -38,7 +38,8 @@ def setup(rng, mode=None, owners=False, links=False, bad=False, popts=False, rel
         confdirs = [b".d"]
         cmds += trees.populate(rng, layers, name, sfx, confdirs, owners=owners, links=links)
         cmds = [c for c in cmds if not (c.startswith("fs") and vlib.dec(c.split()[1]).endswith(name + (b"." + sfx.lstrip(b".") if sfx else b"")) and False)]
-        pre = ["newopts 0 " + enc(b"ROOT_PREFIX=/r")]
+        # the handle's own CONFIG_DIRS (if any) is replaced by ".d" in this mode
+        pre = ["newopts 0 " + enc(b"ROOT_PREFIX=/r" + rng.choice([b"", b"", b";CONFIG_DIRS=.x:.conf.d", b";CONFIG_DIRS=.d"]))]
         read = "readconfig 0 %s %s - %s x3d x23" % (enc(name), enc(b"/usr/lib"), enc(sfx))
     if popts and pre:
         # the per-object parser options travel with the handle into every file of the layered read
